@@ -158,7 +158,7 @@ proof {
         # ---------------------------------------------------------------- coerced
         {'kind': 'fn', 'src': 'feel/src/types.rs', 'path': 'impl FeelType::fn coerced',
          'key': 'types::FeelType::coerced',
-         'props': ['C16'], 'auto_props': ['C16', 'C05'],
+         'props': ['C16', 'C11'], 'auto_props': ['C16', 'C05'],
          'ret': 'r',
          'ensures': [('post_coerce', 'forall |tv: FeelType| type_rel(*actual_value, tv) ==> coerce_post(*self, *actual_value, tv, r)')],
          'body_prefix': 'proof { lemma_coerce_tests_indep(*actual_value, *self); }',
@@ -168,6 +168,7 @@ proof {
 }
 
 NOT_DECIDED = {
+    'C11': ['output side: FeelType::coerced itself is decided here (wrap into / unwrap from a singleton list, null otherwise); where it is applied to decision / BKM / decision service results is not'],
     'C16': [
         'where coercion is applied during function invocation / decision output (closure wiring in feel-evaluator builders and model-evaluator)',
         'termination of is_conformant and Value::type_of (exec_allows_no_decreases_clause)',
